@@ -214,12 +214,16 @@ func snap(b *strings.Builder, v reflect.Value, seen map[uintptr]bool, depth int)
 			k string
 			v reflect.Value
 		}
-		var es []kv
+		es := make([]kv, 0, v.Len())
 		it := v.MapRange()
 		for it.Next() {
-			var kb strings.Builder
-			snap(&kb, it.Key(), seen, depth+1)
-			es = append(es, kv{kb.String(), it.Value()})
+			if k := it.Key(); k.Kind() == reflect.String {
+				es = append(es, kv{strconv.Quote(k.String()), it.Value()})
+			} else {
+				var kb strings.Builder
+				snap(&kb, k, seen, depth+1)
+				es = append(es, kv{kb.String(), it.Value()})
+			}
 		}
 		sort.Slice(es, func(i, j int) bool { return es[i].k < es[j].k })
 		b.WriteString(typeName(v.Type()))
@@ -404,41 +408,41 @@ func collisionPrograms(add func(program)) {
 	for _, k := range ctxKeys {
 		others := map[string]string{
 			"clib":  clib,
-			"libK":  "{% macro " + k + "(p) %}{{ p|length }}{% endmacro %}",
-			"impK":  "{% import 'clib' as " + k + " %}{{ " + k + ".mm(1) }}",
-			"fromK": "{% from 'clib' import mm as " + k + " %}{{ " + k + "(1) }}",
-			"setK":  "{% set " + k + " = [1] %}{% set " + k + " = " + k + "|merge([2]) %}{{ " + k + "|length }}",
-			"rdK":   "{{ " + k + "|length }}",
-			"baseK": "{% block " + k + " %}{% endblock %}{{ " + k + "|length }}",
+			"klib":  "{% macro " + k + "(p) %}{% if p is iterable %}i{% endif %}x{% endmacro %}",
+			"kimp":  "{% import 'clib' as " + k + " %}{{ " + k + ".mm(1) }}",
+			"kfrom": "{% from 'clib' import mm as " + k + " %}{{ " + k + "(1) }}",
+			"kset":  "{% set " + k + " = [1] %}{% set " + k + " = " + k + "|merge([2]) %}{% if " + k + " is iterable %}i{% endif %}",
+			"krd":   "{% if " + k + " is iterable %}i{% endif %}",
+			"kbase": "{% block " + k + " %}{% endblock %}{% if " + k + " is iterable %}i{% endif %}",
 		}
 		for i, src := range []string{
 			"{% import 'clib' as K %}{{ K.mm(1) }}",
-			"{{ K|length }}{% import 'clib' as K %}{{ K.mm(1) }}{{ K.ww(1, 2) }}{{ K|length }}",
-			"{% for x in [1, 2] %}{% import 'clib' as K %}{{ K.mm(x) }}{% endfor %}{{ K|length }}",
-			"{% include 'impK' %}{% include 'impK' %}{{ K|length }}",
-			"{% include 'impK' with {'K': K} %}{% include 'impK' with {'K': K} only %}",
-			"{% macro mm(p) %}{{ p }}{% endmacro %}{% import _self as K %}{{ K.mm(1) }}",
+			"{% if K is iterable %}i{% endif %}{% import 'clib' as K %}{{ K.mm(1) }}{{ K.ww(1, 2) }}{% if K is iterable %}i{% endif %}",
+			"{% for x in [1, 2] %}{% import 'clib' as K %}{{ K.mm(x) }}{% endfor %}{% if K is iterable %}i{% endif %}",
+			"{% include 'kimp' %}{% include 'kimp' %}{% if K is iterable %}i{% endif %}",
+			"{% include 'kimp' with {'K': K} %}{% include 'kimp' with {'K': K} only %}",
+			"{% import 'clib' as K %}{% import 'clib' as K %}{{ K.ww(1, 2) }}",
 			"{% from 'clib' import mm as K %}{{ K(1) }}",
 			"{% from 'clib' import mm as K, ww as K %}{{ K(1, 2) }}",
-			"{% include 'fromK' %}{% include 'fromK' with {'K': K} %}{% include 'fromK' with {'K': K} only %}",
-			"{% from 'libK' import K %}{{ K(1) }}",
-			"{% import 'libK' as l %}{{ l.K(K) }}",
-			"{% set K = [1] %}{% set K = K|merge([2]) %}{{ K|length }}",
-			"{% for K in [1, 2] %}{{ K }}{% endfor %}{{ K|length }}",
-			"{% for K, x in {'a': 1} %}{{ K }}{% endfor %}{% for j, K in [5] %}{{ K }}{% endfor %}{{ K|length }}",
-			"{% for K in K %}{% set K = 1 %}{% endfor %}{{ K|length }}",
-			"{% macro K(p) %}{{ p }}{% endmacro %}{{ K(1) }}{{ _self.K(2) }}{{ K|length }}",
-			"{% macro mm(K) %}{% set K = 1 %}{{ K }}{% endmacro %}{{ mm(K) }}{{ mm(2) }}{{ K|length }}",
+			"{% include 'kfrom' %}{% include 'kfrom' with {'K': K} %}{% include 'kfrom' with {'K': K} only %}",
+			"{% from 'klib' import K %}{{ K(1) }}",
+			"{% import 'klib' as l %}{{ l.K(K) }}",
+			"{% set K = [1] %}{% set K = K|merge([2]) %}{% if K is iterable %}i{% endif %}",
+			"{% for K in [1, 2] %}{{ K }}{% endfor %}{% if K is iterable %}i{% endif %}",
+			"{% for K, x in {'a': 1} %}{{ K }}{% endfor %}{% for j, K in [5] %}{{ K }}{% endfor %}{% if K is iterable %}i{% endif %}",
+			"{% for K in K %}{% set K = 1 %}{% endfor %}{% if K is iterable %}i{% endif %}",
+			"{% macro K(p) %}{{ p }}{% endmacro %}{{ K(1) }}{{ _self.K(2) }}{% if K is iterable %}i{% endif %}",
+			"{% macro mm(K) %}{% set K = 1 %}{{ K }}{% endmacro %}{{ mm(K) }}{{ mm(2) }}{% if K is iterable %}i{% endif %}",
 			"{% macro mm(K) %}{% import 'clib' as K %}{{ K.mm(1) }}{% endmacro %}{{ mm(K) }}{{ _self.mm(K) }}",
 			"{% macro mm(K) %}{% from 'clib' import mm as K %}{{ K(1) }}{% endmacro %}{{ mm(K) }}{{ _self.mm(K) }}",
-			"{% block K %}{{ K|length }}{% endblock %}{{ K|length }}",
-			"{% block K %}{% set K = 1 %}{% import 'clib' as K %}{% endblock %}{{ K|length }}",
-			"{% include 'rdK' with {'K': 1} %}{{ K|length }}",
-			"{% include 'setK' with {'K': K} %}{{ K|length }}",
-			"{% include 'setK' with {'K': K} only %}{% include 'setK' %}{{ K|length }}",
-			"{% extends 'baseK' %}{% block K %}{% set K = 1 %}{% import 'clib' as K %}{{ K.mm(1) }}{% endblock %}",
-			"{% apply upper %}{% import 'clib' as K %}{{ K.mm('a') }}{% set K = 1 %}{% endapply %}{{ K|length }}",
-			"{% if true %}{% import 'clib' as K %}{% endif %}{% if K %}{% set K = 0 %}{% endif %}{{ K|length }}",
+			"{% block K %}{% if K is iterable %}i{% endif %}{% endblock %}{% if K is iterable %}i{% endif %}",
+			"{% block K %}{% set K = 1 %}{% import 'clib' as K %}{% endblock %}{% if K is iterable %}i{% endif %}",
+			"{% include 'krd' with {'K': 1} %}{% if K is iterable %}i{% endif %}",
+			"{% include 'kset' with {'K': K} %}{% if K is iterable %}i{% endif %}",
+			"{% include 'kset' with {'K': K} only %}{% include 'kset' %}{% if K is iterable %}i{% endif %}",
+			"{% extends 'kbase' %}{% block K %}{% set K = 1 %}{% import 'clib' as K %}{{ K.mm(1) }}{% endblock %}",
+			"{% apply upper %}{% import 'clib' as K %}{{ K.mm('a') }}{% set K = 1 %}{% endapply %}{% if K is iterable %}i{% endif %}",
+			"{% if true %}{% import 'clib' as K %}{% endif %}{% if K %}{% set K = 0 %}{% endif %}{% if K is iterable %}i{% endif %}",
 		} {
 			add(program{key: fmt.Sprintf("collide/%d/%s", i, k), family: "collide", touches: "collide" + strconv.Itoa(i),
 				main: strings.ReplaceAll(src, "K", k), others: others})
@@ -449,18 +453,18 @@ func collisionPrograms(add func(program)) {
 		"{% from 'clib' import mm as q %}{{ q(1) }}",
 		"{% set q = 1 %}{{ q }}",
 		"{% for q in [1] %}{{ q }}{% endfor %}",
-		"{% macro mm(p) %}{{ p }}{% endmacro %}{% import _self as q %}{{ q.mm(1) }}",
+		"{% import 'clib' as q %}{% import 'clib' as q %}{{ q.ww(1, 2) }}",
 		"{% for x in [1, 2] %}{% import 'clib' as q %}{{ q.mm(x) }}{% endfor %}",
 	}
 	for _, v := range valueExprs {
 		for ri, r := range rebind {
 			others := map[string]string{"clib": clib, "reb": r}
 			for bi, src := range []string{
-				"{% set q = " + v + " %}" + r + "{{ " + v + "|length }}",
-				"{% for q in [" + v + "] %}" + r + "{% endfor %}{{ " + v + "|length }}",
-				"{% for q in " + v + " %}" + r + "{% endfor %}{{ " + v + "|length }}",
-				"{% include 'reb' with {'q': " + v + "} %}{% include 'reb' with {'q': " + v + "} only %}{{ " + v + "|length }}",
-				"{% macro w(q) %}" + r + "{% endmacro %}{{ w(" + v + ") }}{{ _self.w(" + v + ") }}{{ " + v + "|length }}",
+				"{% set q = " + v + " %}" + r + "{% if " + v + " is iterable %}i{% endif %}",
+				"{% for q in [" + v + "] %}" + r + "{% endfor %}{% if " + v + " is iterable %}i{% endif %}",
+				"{% for q in " + v + " %}" + r + "{% endfor %}{% if " + v + " is iterable %}i{% endif %}",
+				"{% include 'reb' with {'q': " + v + "} %}{% include 'reb' with {'q': " + v + "} only %}{% if " + v + " is iterable %}i{% endif %}",
+				"{% macro w(q) %}" + r + "{% endmacro %}{{ w(" + v + ") }}{{ _self.w(" + v + ") }}{% if " + v + " is iterable %}i{% endif %}",
 			} {
 				add(program{key: fmt.Sprintf("bound/%d/%d/%s", bi, ri, v), family: "bound", touches: fmt.Sprintf("bound%d.%d", bi, ri), main: src, others: others})
 			}
@@ -557,6 +561,21 @@ func chainPrograms(thorough bool, add func(program)) {
 
 // ---------------------------------------------------------------------------------------------
 
+// pristine is the snapshot of a freshly built context. mkContext is deterministic, so it is taken once per
+// worker (from two separately built contexts, which must agree) instead of once per case.
+var pristineSnap string
+
+func pristine() string {
+	if pristineSnap == "" {
+		a, b := snapshot(mkContext()), snapshot(mkContext())
+		if a != b {
+			panic("harness: two freshly built contexts differ: " + firstDiff(a, b))
+		}
+		pristineSnap = a
+	}
+	return pristineSnap
+}
+
 func runProgram(p program) *vlib.Outcome {
 	o := &vlib.Outcome{Counters: map[string]int64{"renders": 2, "programs_" + p.family: 1}}
 	e := twig.New()
@@ -572,7 +591,7 @@ func runProgram(p program) *vlib.Outcome {
 		return o // not a program of the language: nothing rendered, nothing to check
 	}
 	ctx := mkContext()
-	before := snapshot(ctx)
+	before := pristine()
 	out1, err1 := e.Render("t", ctx)
 	after1 := snapshot(ctx)
 	out2, err2 := e.Render("t", ctx)
@@ -615,9 +634,13 @@ func main() {
 	vlib.Main(vlib.Spec{
 		ID:    "C18",
 		Level: "exploration",
-		Rule: "every program of three families — (1) each of the 31 built-in filters x 17 (thorough 38) argument shapes x 41 value expressions, printed and assigned-then-merged/sorted/reversed; " +
+		Rule: "every program of five families — (1) each of the 31 built-in filters x 17 (thorough 38) argument shapes x 41 value expressions, printed and assigned-then-merged/sorted/reversed; " +
 			"(2) every ordered pair of 15 x 14 (thorough 26 x 26) collection filters on each value expression, the intermediate value observed before and after the second filter; " +
-			"(3) 28 scope programs per value expression (set / loop variable / include with, only / macro parameter / import named like a caller's key, functions merge, max, min, cycle, slice window then merge) — " +
+			"(3) 28 scope programs per value expression (set / loop variable / include with, only / macro parameter / import named like a caller's key, functions merge, max, min, cycle, slice window then merge); " +
+			"(4) name collisions: 27 programs per top-level key K of the context in which K is an import alias, from-import alias, imported macro name, set target, loop key/value variable, macro name, macro parameter, block name (also through extends) or include-with key, " +
+			"and 5 bindings (set, loop over [V], loop over V, include with, macro parameter) x 6 re-bindings (import as, from-import as, set, for, import twice, import in a loop) of a template name bound to each value expression V; " +
+			"(5) filter chains in one expression: every ordered pair of 38 (thorough 50) filter instances covering all 31 filters, printed (thorough: also assigned, as macro/function argument, as for-sequence), every ordered pair of the 14 collection instances in those other positions, " +
+			"and every ordered triple of 10 (thorough 14) collection instances (default, raw, slice, first, last, sort, reverse, merge, keys, join) in the positions print, set, argument, for-sequence and held (applied to a value obtained from a filter earlier, observed before and after) — " +
 			"rendered twice on a fresh engine with a fresh context of slices with sentinel-filled spare capacity, arrays, typed/untyped maps, structs, pointers nested two deep; " +
 			"non-trivial = the program renders without error (the filters really ran on the data)",
 		Assumptions: []string{
